@@ -437,9 +437,9 @@ func ruleAcceptErrorSpin(w *World, r *Report, rule string) {
 			if f == nil {
 				return false
 			}
-			if isMethod(f, "github.com/xtaci/smux", "Session", "IsClosed") || isMethod(f, "github.com/xtaci/smux", "Session", "CloseChan") {
-				return true
-			}
+			// smux's IsClosed()/CloseChan() only tell whether Close() was called: a session whose socket read failed
+			// (reset, garbage frame) latches the error and returns it from every AcceptStream at once while
+			// IsClosed() stays false until the keep-alive gives up, so such a test is not a way out of the loop
 			if isPkgFunc(f, "time", "Sleep") || isPkgFunc(f, "time", "After") {
 				return true
 			}
@@ -459,12 +459,12 @@ func ruleAcceptErrorSpin(w *World, r *Report, rule string) {
 			if len(e.State.Events) > 0 {
 				return
 			}
-			spin = "after a failed AcceptStream a path returns straight to AcceptStream (no return, no session-liveness test, no back-off): smux reports a dead session with io.ErrClosedPipe / the socket error immediately and forever, so the loop spins"
+			spin = "after a failed AcceptStream a path returns straight to AcceptStream (no return, no back-off; IsClosed() does not count — it stays false after a socket read error): smux reports a dead session with the latched socket/protocol error immediately and forever, so the loop spins"
 		})
 		if !ok {
 			r.Undecided(rule, key, pos, "path budget exceeded")
 			continue
 		}
-		r.Check(spin == "", rule, key, pos, fmt.Sprintf("all %d cyclic path(s) through the accept either succeeded or pass a return / liveness test", paths), spin, "cyclic_paths", paths)
+		r.Check(spin == "", rule, key, pos, fmt.Sprintf("all %d cyclic path(s) through the accept either succeeded or pass a return / back-off", paths), spin, "cyclic_paths", paths)
 	}
 }
